@@ -295,6 +295,19 @@ func gen(rng *rand.Rand, tier core.Tier, emit core.Emit) {
 	for i := 0; i < 30*k; i++ {
 		genProbe(rng, emit)
 	}
+	// (5) every candidate port answers at once, each in a different dialect: whatever the real arrival order and however
+	// quickly the probing goroutines finish, the most capable dialect must be kept (many repetitions: the window is narrow)
+	for i := 0; i < 400*k; i++ {
+		gamePort := 10480
+		ds := []string{"vanilla", "am", "gs1"}
+		rng.Shuffle(len(ds), func(a, b int) { ds[a], ds[b] = ds[b], ds[a] })
+		specs := make([]string, len(ds))
+		for j, d := range ds {
+			s := detailsStatus(rng, strconv.Itoa(gamePort), true)
+			specs[j] = "0/" + u.JoinDgrams(u.Encode(d, s, nil))
+		}
+		emit("probe", strconv.Itoa(gamePort), strings.Join(specs, ";"))
+	}
 }
 
 func detailsStatus(rng *rand.Rand, hostport string, withHostport bool) u.Status {
